@@ -50,5 +50,8 @@ class LimitedHistoryLogObserver:
 
         @param otherObserver: An observer to replay events to.
         """
-        for event in self._buffer:
+        # Iterate over a copy: the observer being replayed to may itself log
+        # to this observer (for example through a publisher both are
+        # registered with), and a deque must not change during iteration.
+        for event in list(self._buffer):
             otherObserver(event)
